@@ -1,5 +1,158 @@
+//! rv-flow: manifest-level resource flow checks (C09, C10, C36 run-time half, C38). One shared
+//! reference model + generator; every case is executed on the monitored ledger and judged by all
+//! four oracles, each violation reported under the id of the property it contradicts.
+use rv_common::*;
+use std::time::Duration;
+
+mod gen;
+mod ins;
+mod model;
+mod run;
+mod world;
+
+use gen::*;
+use run::*;
+use world::*;
+
+fn spec(prop: &str) -> Spec {
+    let rule = "generated manifests (V1 and V2 instruction vectors, statically valid and invalid) over 3 fungibles (divisibility 0/2/18) and 2 non-fungibles held by 3 accounts: account withdraw / recall / burn / create_proof, worktop take (amount below / equal to / above the balance, ids, all), return, burn, all worktop / bucket / next-call assertions, bucket / auth-zone / cloned proofs, deposits (single, batch, entire worktop, try_* variants), auth-zone drops; amounts aimed at boundaries (exactly the balance, exactly the withdrawable amount under a lock, one unit / one atto more, divisibility violations, negative, MAX), stale and never-created bucket / proof ids. Each manifest is executed on the monitored ledger; a reference model written from the property text predicts success (with final holdings of every account vault) or the first failing instruction and its class. A case is non-trivial when it was committed; distinct = distinct (manifest version, predicted class, observed class, instruction-kind sequence).";
+    let s = Spec::new(prop, "exploration", rule)
+        .assume("account vault contents are read from raw substates (decoding layer trusted); the reference model is the specification of worktop / bucket / proof semantics (container identity: a take of exactly the balance moves the container, as the property's rationale states)")
+        .assume("which non-fungibles an amount-based take / proof selects is unspecified: such cases are executed but carry no verdict (counted as model:unknown)")
+        .floor("model:predicted-success/observed-success", 300)
+        .floor("model:predicted-fail/observed-fail", 300);
+    match prop {
+        "C09" => s
+            .floor("c09:final_holdings_compared", 300)
+            .floor("c09:lifecycle_failures_confirmed", 200)
+            .floor("c09:assertion_failures_confirmed", 30)
+            .floor("agreed-failure:LeftoverWorktop", 10)
+            .floor("agreed-failure:DanglingNonEmptyBucket", 5)
+            .floor("agreed-failure:UnknownBucket", 10)
+            .floor("agreed-failure:TakeMoreThanPresent", 20)
+            .floor("situation:take-exactly-the-worktop-balance", 100)
+            .explain("C09: (a)/(b) a manifest the model says must fail for a lifecycle reason (unknown or consumed bucket / proof, take above the balance, negative amount, failed assertion, leftover worktop, dangling non-empty bucket) must not succeed; (c) an assertion error is only acceptable where the model's first failure is an assertion, and a predicted-success manifest must not fail with an assertion / missing-resource error; (d) after success every account vault holds exactly what the model computed."),
+        "C10" => s
+            .floor("c10:locked_refusals_confirmed", 150)
+            .floor("c10:lock_or_divisibility_failures_confirmed", 300)
+            .floor("c10:successes_with_proofs", 200)
+            .floor("c10:exactly_withdrawable_taken_under_lock", 30)
+            .floor("c10:containers_fully_unlocked_then_used", 50)
+            .floor("situation:overlapping-proofs-on-one-container", 100)
+            .floor("situation:vault-proof", 200)
+            .floor("situation:bucket-proof", 200)
+            .explain("C10: container model {content, live proofs}; withdrawable = content - max(proof amounts) (ids: content minus union of proven ids). Taking / burning / recalling / depositing more than the withdrawable part, or destroying a container with a live proof, must fail (safety); taking exactly the withdrawable amount, and the full amount once all proofs are dropped, must succeed (a refusal with an insufficient / locked error of a manifest the model accepts is a violation); amounts violating divisibility must fail."),
+        "C36" => s
+            .floor("c36:accepted_by_ruleset_all_and_executed", 500)
+            .floor("c36:rejected_by_ruleset_all", 200)
+            .floor("c36:accepted_and_failed_at_run_time_for_other_reasons", 100)
+            .floor("c36:run_time_id_errors_observed", 50)
+            .explain("C36(b): every generated manifest is validated by StaticManifestInterpreter (rulesets all and babylon_equivalent) and executed regardless; an accepted manifest must never fail with BucketNotFound / ProofNotFound / AddressReservationNotFound / AddressNotFound. Rejected manifests that do hit such errors are counted to show the generator reaches them."),
+        "C38" => s
+            .floor("c38:successful_executions_compared", 400)
+            .floor("c38:bounds_evaluated", 1500)
+            .floor("c38:bounds_with_finite_upper", 500)
+            .floor("c38:id_bounds_evaluated", 100)
+            .floor("c38:aggregated_deposit_bounds_evaluated", 500)
+            .explain("C38: for every manifest the StaticResourceMovementsVisitor accepts and whose execution succeeds: per account and resource the gross amounts / ids deposited and withdrawn (from the vaults' own events) lie within the summed bounds of the account deposit / withdraw invocations (lower, upper, required ids moved, moved ids within allowlists, nothing moved where no invocation may move it), the net change of the vault balance (pre / post database) lies within [deposit.lower - withdraw.upper, deposit.upper - withdraw.lower], and the aggregated NetDeposits bounds hold. Manifests that recall from or burn inside an observed account are skipped (not account sends)."),
+        _ => s,
+    }
+}
+
+fn profile_for(prop: &str) -> &'static Profile {
+    match prop {
+        "C09" => &P_C09,
+        "C10" => &P_C10,
+        "C36" => &P_C36,
+        _ => &P_C38,
+    }
+}
+
+const PHASE: u64 = 9;
+
+/// Runs shard `idx` for at most `cases` iterations (or until `stop_after` for replays).
+fn run_shard(args: &Args, prop: &str, idx: usize, rng: &mut Rng, shard: &mut Shard, cases: u64, only_verdict_of: Option<u64>) {
+    let p = profile_for(prop);
+    let mut w = World::new(shard, rng);
+    w.ledger.walk_every = args.tier.pick(400, 1500);
+    let mut it = 0u64;
+    while it < cases && (only_verdict_of.is_some() || !shard.time_up()) {
+        if it % 25 == 0 {
+            w.refill(shard);
+        }
+        let holdings = w.all_holdings();
+        let case = generate(rng, p, &w.res, &holdings, N_ACCOUNTS);
+        let ctx = CaseCtx { seed: args.seed, shard: idx, iteration: it, profile: p, phase: PHASE };
+        let before = shard.violations.len();
+        let out = run_case(shard, &mut w, &case, &ctx);
+        if let Some(target) = only_verdict_of {
+            if it == target {
+                println!("replayed iteration {it} of shard {idx}: predicted {:?}, observed {:?}", out.model, out.real);
+                println!("{}", ins::render(&w, &case.ins));
+                for v in &shard.violations[before..] {
+                    println!("  VIOLATION {} {}", v.prop, v.signature);
+                }
+                if shard.violations.len() == before {
+                    println!("  no violation at this iteration");
+                }
+                return;
+            } else {
+                // earlier iterations only rebuild the ledger history
+                shard.violations.truncate(before);
+            }
+        }
+        it += 1;
+    }
+    rv_ledger::walkers::walk_all(shard, &w.ledger, &format!("end of shard {idx}"));
+    shard.count("histories");
+}
+
+fn run(args: &Args, prop: &str) -> i32 {
+    let mut report = Report::new(args, spec(prop));
+    if let Some(path) = &args.replay {
+        return replay(args, prop, path, report);
+    }
+    let per_shard = scaled(args, args.tier.pick(1500, 40_000));
+    let budget = Duration::from_secs(budget_secs(args.tier, 50, 720));
+    report.run_shards(PHASE, args.threads, budget, |idx, rng, shard| {
+        run_shard(args, prop, idx, rng, shard, per_shard, None);
+    });
+    report.finish()
+}
+
+fn replay(args: &Args, prop: &str, path: &std::path::Path, mut report: Report) -> i32 {
+    let doc: serde_json::Value = serde_json::from_str(&std::fs::read_to_string(path).expect("replay file")).expect("json");
+    let r = &doc["detail"]["replay"];
+    let (Some(seed), Some(shard_idx), Some(iteration)) = (r["seed"].as_i64(), r["shard"].as_u64(), r["iteration"].as_u64()) else {
+        println!("replay file has no (seed, shard, iteration): {}", doc["detail"]);
+        return 2;
+    };
+    let check = doc["check"].as_str().unwrap_or(prop).to_string();
+    let mut a = args.clone();
+    a.seed = seed as u64;
+    if let Some(t) = doc["tier"].as_str() {
+        a.tier = if t == "thorough" { Tier::Thorough } else { Tier::Quick };
+    }
+    let mut rng = Rng::from_parts(a.seed, PHASE, shard_idx);
+    let mut shard = Shard::new(shard_idx as usize, &check, a.tier, std::time::Instant::now() + Duration::from_secs(3600));
+    run_shard(&a, &check, shard_idx as usize, &mut rng, &mut shard, iteration + 1, Some(iteration));
+    // only the violations of the replayed iteration remain
+    shard.nontrivial(&1);
+    shard.nontrivial(&2);
+    shard.evaluations += 1;
+    report.merge(shard);
+    report.spec.floors.clear();
+    report.finish()
+}
+
 fn main() {
-    let args = rv_common::parse_args();
-    eprintln!("no check named {}", args.prop);
-    std::process::exit(2);
+    let args = parse_args();
+    let code = match args.prop.as_str() {
+        p @ ("C09" | "C10" | "C36" | "C38") => run(&args, p),
+        other => {
+            eprintln!("rv-flow: no check named {other}");
+            2
+        }
+    };
+    std::process::exit(code);
 }
